@@ -16,7 +16,7 @@ ASSUMPTIONS = common.ASSUME_QR + ['the bound floor(ec/2) itself is Reed-Solomon 
 REQUIRED = ['evaluations', 'encode_observed', 'symbols_decoded', 'fault_trials', 'codewords_corrupted',
             'all_168_layouts_observed']
 EXHAUSTIVE = {'quick': '(version, level) block layouts: 168 of 168', 'thorough': '(version, level) block layouts: 168 of 168'}
-TIMEOUT = {'quick': 900, 'thorough': 7200}
+TIMEOUT = {'quick': 3600, 'thorough': 21600}
 PATTERNS = ['uniform', 'burst', 'data-only', 'ec-only', 'max-weight', 'single']
 
 
